@@ -446,6 +446,14 @@ def run_case(ctx, kind, idx, rng):
         A, entries, dk = build(rng, T, mask, sign, prange=[a, b] if (how == 'prange' and idx % 2) else None)
         if how == 'prange' and not idx % 2:
             A.set_prange([a, b])
+        elif how != 'prange' and rng.random() < 0.5 and T >= 3:
+            # a plateau range stored earlier must not override the range passed explicitly
+            # (history: set_prange, then plateau(other range); added after seeded change seed3-C15)
+            a2 = int(rng.integers(0, T - 1))
+            b2 = int(rng.integers(a2 + 1, T))
+            if [a2, b2] != [a, b]:
+                A.set_prange([a2, b2])
+                ctx.count('plateau_explicit_range_with_other_stored_prange')
         c = list(entries)
         auto = bool((idx // 3) % 2)
         if not auto:
